@@ -533,19 +533,27 @@ func (s *Sim) Advance(d time.Duration) {
 // Shutdown kills every task so the bubble can end.
 func (s *Sim) Shutdown(procs ...*Proc) {
 	defer s.closed.Store(true)
-	for i := 0; i < 1000; i++ {
+	idle := 0
+	for i := 0; i < 1000 && idle < 6; i++ {
 		s.Wait()
 		for _, p := range procs {
 			p.Dead = true
 		}
 		ps := s.Pending()
-		if len(ps) == 0 {
-			return
-		}
 		for _, r := range ps {
 			s.remove(r)
 			r.reply <- replyMsg{O: Kill}
 		}
+		if len(ps) > 0 {
+			idle = 0
+			continue
+		}
+		// Nothing is parked at a seam, but goroutines may still sleep (a backoff,
+		// a delayed replay): the fake clock stops when the bubble's main
+		// goroutine exits, so fire their timers now; they end at their next seam
+		// call because their process is dead.
+		idle++
+		time.Sleep(time.Hour)
 	}
 }
 
